@@ -165,6 +165,33 @@ def param_programs():
         return m
     yield ("params/numeric-literals-on-every-primitive", numeric_literals_every_primitive)
 
+    # every parameter that may be None given as None explicitly - also where its default is something else (Vdc.dc = 0)
+    def explicit_none():
+        import dataclasses, typing
+        m = h.Module(name="PNone")
+        k = 0
+        prims = [getattr(h.primitives, n) for n in dir(h.primitives)]
+        prims = [p_ for p_ in prims if isinstance(p_, h.Primitive)]
+        seen = set()
+        for prim in prims:
+            if id(prim) in seen:
+                continue
+            seen.add(id(prim))
+            optional = [n for n, p_ in prim.Params.__params__.items() if type(None) in typing.get_args(p_.dtype)]
+            for chosen in [optional] + [[n] for n in optional]:
+                if not chosen:
+                    continue
+                try:
+                    call = prim(**{n: None for n in chosen})
+                except Exception:
+                    continue
+                conns = {p_.name: m.add(h.Signal(name=f"s{k}_{p_.name}", width=p_.width)) for p_ in prim.port_list}
+                m.add(call(**conns), name=f"i{k}")
+                k += 1
+        assert k >= 20, k
+        return m
+    yield ("params/explicit-none", explicit_none)
+
     # generated modules whose names carry parameter text with dots: relative paths, doubled / leading / trailing dots
     def dotted_generator_names():
         @h.paramclass
